@@ -531,6 +531,9 @@ def case_arith(ctx, case):
     except ZeroDivisionError:
         ctx.count('arith', f'{kind}/{op}/zero-division')
         return
+    except OverflowError:                 # numpy refuses e.g. a negative integer offset on an unsigned column
+        ctx.count('arith', f'{kind}/{op}/overflow-unsigned')
+        return
     except (ValueError, TypeError, IndexError) as e:
         y, out, p = None, 'ERR', 0
     exact = all(exact_factor(v, op) for v in f['vals'])
